@@ -18,6 +18,8 @@ import (
 	"encoding/json"
 	"flag"
 	"fmt"
+	"image"
+	"image/color"
 	"os"
 	"regexp"
 	"sync"
@@ -213,6 +215,59 @@ func main() {
 				return []byte(f.Name())
 			})
 		}
+	}
+
+	// shared inputs: dash patterns held in package-level style slices with spare capacity (a first or last zero, odd lengths, interior
+	// zeros: every branch of dashCanonical), used by several jobs and printed with the result; a caller's array must stay untouched
+	sharedPats := [][]float64{{0, 1, 2, 3}, {1, 2, 0}, {0, 1, 2}, {1, 0.5, 2}, {0, 2, 1, 0}, {1, 0, 0.5, 2}, {2, 1}}
+	for k := range sharedPats {
+		sp := make([]float64, len(sharedPats[k]), 16)
+		copy(sp, sharedPats[k])
+		sharedPats[k] = sp
+	}
+	line := canvas.MustParseSVGPath("M0 0L40 0L40 30")
+	for k := range sharedPats {
+		k := k
+		for rep := 0; rep < 2; rep++ {
+			add(fmt.Sprintf("dash-shared-pattern-%d-%d", k, rep), func() []byte {
+				pat := sharedPats[k]
+				q := line.Dash(0.25, pat...)
+				return []byte(fmt.Sprint(pat, pat[:cap(pat)][len(pat):len(pat)+2]) + "|" + q.String())
+			})
+		}
+	}
+	// renderers created with nil options must not share state: one job changes its renderer's image encoding, the others do not
+	img := image.NewRGBA(image.Rect(0, 0, 4, 3))
+	for k := 0; k < 12; k++ {
+		img.Set(k%4, k/4, color.RGBA{uint8(20 * k), uint8(255 - 20*k), 7, 255})
+	}
+	imgCanvas := func() *canvas.Canvas {
+		c := canvas.New(40, 30)
+		ctx := canvas.NewContext(c)
+		ctx.DrawImage(5, 5, img, canvas.DPMM(1))
+		return c
+	}
+	for k := 0; k < 6; k++ {
+		lossy := k == 2 || k == 4
+		add(fmt.Sprintf("nil-options-image-%d", k), func() []byte {
+			var out, b bytes.Buffer
+			pw := pdf.New(&b, 40, 30, nil)
+			if lossy {
+				pw.SetImageEncoding(canvas.Lossy)
+			}
+			imgCanvas().RenderTo(pw)
+			pw.Close()
+			out.WriteString(fmt.Sprint(bytes.Contains(b.Bytes(), []byte("DCTDecode")), ";"))
+			b.Reset()
+			sw := svg.New(&b, 40, 30, nil)
+			if lossy {
+				sw.SetImageEncoding(canvas.Lossy)
+			}
+			imgCanvas().RenderTo(sw)
+			sw.Close()
+			out.WriteString(fmt.Sprint(bytes.Contains(b.Bytes(), []byte("image/jpeg"))))
+			return out.Bytes()
+		})
 	}
 
 	hash := func(b []byte) string { h := sha256.Sum256(b); return hex.EncodeToString(h[:8]) }
